@@ -7,6 +7,7 @@ mod props;
 mod report;
 mod s3stub;
 mod seq;
+mod tcp;
 mod util;
 mod world;
 
